@@ -35,6 +35,8 @@ type c11Req struct {
 	// bearing on whether the request is a valid handshake or on which subprotocol is selected.
 	Ext  []string
 	Mode websocket.CompressionMode
+	// SkipVerify: AcceptOptions.InsecureSkipVerify - it switches ORIGIN verification off and nothing else
+	SkipVerify bool
 }
 
 func (q c11Req) render() string {
@@ -123,6 +125,7 @@ func genC11(rt *rapid.T) c11Req {
 		q.Ext = []string{rapid.SampledFrom([]string{"permessage-deflate", "permessage-deflate; client_max_window_bits", "permessage-deflate; server_no_context_takeover; client_no_context_takeover", "x-webkit-deflate-frame"}).Draw(rt, "extOffer")}
 		q.Mode = rapid.SampledFrom(c01Modes).Draw(rt, "serverCompression")
 	}
+	q.SkipVerify = rapid.IntRange(0, 3).Draw(rt, "insecureSkipVerify") == 0
 	k := rapid.SampledFrom([]int{0, 0, 0, 1, 1, 1, 1, 1, 2, 2}).Draw(rt, "nMutations")
 	for i := 0; i < k; i++ {
 		field := rapid.SampledFrom([]string{"method", "version", "conn", "upgr", "ver", "key"}).Draw(rt, "field")
@@ -337,7 +340,7 @@ func TestC11(t *testing.T) {
 			// request can be upgraded through it, and none may be answered 101
 			lib, peer := memconn.Pipe()
 			rw := wsx.NewRespWriter(lib)
-			conn, aerr := websocket.Accept(struct{ http.ResponseWriter }{rw}, r, &websocket.AcceptOptions{Subprotocols: q.Supported, CompressionMode: q.Mode})
+			conn, aerr := websocket.Accept(struct{ http.ResponseWriter }{rw}, r, &websocket.AcceptOptions{Subprotocols: q.Supported, CompressionMode: q.Mode, InsecureSkipVerify: q.SkipVerify})
 			if conn != nil {
 				conn.CloseNow()
 			}
@@ -360,7 +363,7 @@ func TestC11(t *testing.T) {
 			defer lib.Close()
 			w := wsx.NewRespWriter(lib)
 			w.HeadInWriter = true
-			sv, aerr = wsx.AcceptWith(w, r, &websocket.AcceptOptions{Subprotocols: q.Supported, CompressionMode: q.Mode})
+			sv, aerr = wsx.AcceptWith(w, r, &websocket.AcceptOptions{Subprotocols: q.Supported, CompressionMode: q.Mode, InsecureSkipVerify: q.SkipVerify})
 			sv.Peer = peer
 			out := c11Outcome{Code: sv.W.Code, Hijacked: sv.W.Hijacked, Conn: sv.Conn, Err: aerr, H: sv.W.H}
 			msg := checkC11(q, text, verdict, key, out)
@@ -399,12 +402,12 @@ func TestC11(t *testing.T) {
 			lib, peer := memconn.Pipe()
 			w := wsx.NewRespWriter(lib)
 			w.Deferred = true
-			sv, aerr = wsx.AcceptWith(w, r, &websocket.AcceptOptions{Subprotocols: q.Supported, CompressionMode: q.Mode})
+			sv, aerr = wsx.AcceptWith(w, r, &websocket.AcceptOptions{Subprotocols: q.Supported, CompressionMode: q.Mode, InsecureSkipVerify: q.SkipVerify})
 			sv.Peer = peer
 			defer peer.Close()
 			defer lib.Close()
 		} else {
-			sv, aerr = wsx.AcceptReq(r, &websocket.AcceptOptions{Subprotocols: q.Supported, CompressionMode: q.Mode}, nil)
+			sv, aerr = wsx.AcceptReq(r, &websocket.AcceptOptions{Subprotocols: q.Supported, CompressionMode: q.Mode, InsecureSkipVerify: q.SkipVerify}, nil)
 		}
 		out := c11Outcome{Code: sv.W.Code, Hijacked: sv.W.Hijacked, Conn: sv.Conn, Err: aerr, H: sv.W.H}
 		msg := checkC11(q, text, verdict, key, out)
